@@ -696,6 +696,7 @@ const (
 	c06OpCopy            // continue with Copy()
 	c06OpCommit          // Commit, apply the node set to the store, reopen from the store
 	c06OpBatch           // UpdateBatch assigning value v to every key (v=0: delete everything)
+	c06OpChurn           // >100 net-zero Update calls on one key (toggle v1/v2, then restore); val=1: hash+iterate the live trie right after
 )
 
 type c06Op struct {
@@ -725,6 +726,35 @@ func c06Ops(batches bool) []c06Op {
 			c06Op{"batch(delete all)", c06OpBatch, 0, 0})
 	}
 	return ops
+}
+
+// c06ChurnN is the number of toggling writes of a churn: together with the restoring write the
+// trie's unhashed / uncommitted counters pass their thresholds (unhashed >= 100 selects the
+// parallel hasher, uncommitted > 100 the parallel committer).
+const c06ChurnN = 102
+
+// c06Churn applies c06ChurnN writes toggling key k between the two non-empty values and then
+// restores the value the set holds for k (an empty value when k is absent): net-zero for the set.
+func c06Churn(t *Trie, a *c06Alpha, k int, restore uint8) error {
+	for j := 0; j < c06ChurnN; j++ {
+		if err := t.Update(a.Keys[k], c06Vals[1+j%2]); err != nil {
+			return fmt.Errorf("churn Update(k%d): %v", k, err)
+		}
+	}
+	if err := t.Update(a.Keys[k], c06Vals[restore]); err != nil {
+		return fmt.Errorf("churn restore(k%d): %v", k, err)
+	}
+	return nil
+}
+
+// c06OpsHot is c06Ops(false) plus the churn operations, which let a history cross the
+// parallel-hashing threshold at any point: churn100(k0) leaves the live trie unhashed (the
+// oracle hashes a Copy, which inherits the counter, and later hash / commit ops meet the live
+// counters), churn100(k5)+hash hashes and walks the live trie right away.
+func c06OpsHot() []c06Op {
+	return append(c06Ops(false),
+		c06Op{"churn100(k0)", c06OpChurn, 0, 0},
+		c06Op{"churn100(k5)+hash", c06OpChurn, 5, 1})
 }
 
 type c06Sys struct {
@@ -781,6 +811,18 @@ func (s *c06Sys) Apply(op int) error {
 		for _, k := range s.a.Probe {
 			if got, err := s.t.Get(k); err != nil || len(got) != 0 {
 				return fmt.Errorf("live Get(absent %x)=%x,%v", k, got, err)
+			}
+		}
+	case c06OpChurn:
+		if err := c06Churn(s.t, s.a, o.key, s.model[o.key]); err != nil {
+			return fmt.Errorf("%s: %v", o.name, err)
+		}
+		if o.val == 1 {
+			if h := s.t.Hash(); h != s.a.ref(s.model).root {
+				return fmt.Errorf("%s: live Hash()=%x after the churn, reference root of %s is %x", o.name, h, s.model, s.a.ref(s.model).root)
+			}
+			if err := c06CheckIter(s.t, s.a, s.model); err != nil {
+				return fmt.Errorf("%s: live trie: %v", o.name, err)
 			}
 		}
 	case c06OpCopy:
